@@ -11,7 +11,7 @@ import shutil
 import subprocess
 import sys
 
-WT = "/tmp/mut/c/repo"
+WT = "/tmp/mut/%s/repo" % os.environ.get("CONFIRM_SLOT", "c")
 
 
 def sh(cmd, cwd=WT, timeout=3600):
@@ -20,7 +20,7 @@ def sh(cmd, cwd=WT, timeout=3600):
 
 
 def main():
-    os.makedirs("/tmp/mut/c", exist_ok=True)
+    os.makedirs(os.path.dirname(WT), exist_ok=True)
     if not os.path.isdir(WT):
         subprocess.run(["git", "-C", "/repo", "worktree", "add", "-f", "--detach", WT, "HEAD"], check=True, stdout=subprocess.DEVNULL, stderr=subprocess.DEVNULL)
     head = subprocess.check_output(["git", "-C", "/repo", "rev-parse", "HEAD"], text=True).strip()
